@@ -305,7 +305,7 @@ def evalf(t, env, _cache=None):
     else:
         ch = [evalf(c, env, _cache) for c in t.children()]
         if k == z3.Z3_OP_ADD:
-            v = math.fsum(ch)
+            v = sum(ch)
         elif k == z3.Z3_OP_MUL:
             v = 1.0
             for c in ch:
